@@ -30,6 +30,15 @@
 //!     ..],"post":..}` is written: the ledger and the notification history are observed once, after
 //!     the whole burst. The burst's notifications are re-paired (j-th balance notification with j-th
 //!     trade notification: how the two kinds interleave is left open, the order within a kind is not).
+//!     HANG-UP (mode run only, the end of a scenario: `"hang": 1|2` on the scenario, or events marked `"hg": 1`):
+//!     the last open-order requests are sent without anybody waiting for the answer (`"drop": 1` a raw request
+//!     whose response receiver is gone, `"drop": 2` a `MockExecution::open_order` future polled once and dropped
+//!     - a requester that timed out), and then the client - the LAST REQUEST SENDER - is dropped while these
+//!     orders are still inside the exchange's latency window (1: at once, the exchange has not even been polled;
+//!     2: after the exchange handled them). The harness keeps only its account-stream receiver, lets latency + 5 ms
+//!     of virtual time pass and drains the stream: one line `{"a":"burst","hang":h,..}` whose answers are "lost"
+//!     and whose `post` repeats the last observed ledger (it cannot be observed any more) with the notification
+//!     history extended by what arrived. An accepted order is announced whatever its requester does afterwards.
 //!     `"late": 1` in a scenario's init: `MockExchange::run` is spawned only after the first request
 //!     (or burst) has been queued - the requests are already waiting when the exchange starts.
 //!
@@ -700,6 +709,63 @@ impl Sut {
         Ok((got, repair(arrived)))
     }
 
+    /// The end of a scenario (mode run): the open-order requests `reqs` are sent without anybody waiting for the
+    /// answer, then the last request sender is dropped while they are inside the latency window. Returns the
+    /// notifications that still arrived on the account stream.
+    async fn hangup(&mut self, reqs: &[Value], n0: u64, h: i64) -> Result<Vec<Value>, String> {
+        let Sut::Run { client, stream, lat, task, pending, killed } = self else { usage("a hang-up exists in mode run only") };
+        for (j, r) in reqs.iter().enumerate() {
+            CLIENT_CLOCK_MS.store(i(r, "t"), Ordering::SeqCst);
+            let req = request_of(r, n0 + 1 + j as u64);
+            if r.get("drop").and_then(|d| d.as_i64()) == Some(1) {
+                let (response_tx, response_rx) = tokio::sync::oneshot::channel();
+                drop(response_rx);
+                let _ = client.request_tx.send(MockExchangeRequest::open_order(client.time_request(), response_tx, req));
+            } else {
+                let req_ref = OrderRequestOpen {
+                    key: OrderKey { exchange: req.key.exchange, instrument: &req.key.instrument, strategy: req.key.strategy.clone(), cid: req.key.cid.clone() },
+                    state: req.state.clone(),
+                };
+                let mut fut = Box::pin(client.open_order(req_ref));
+                let _ = futures::poll!(fut.as_mut()); // queued; the requester gives up on the answer
+                drop(fut);
+            }
+        }
+        start(pending, task);
+        if h == 2 {
+            // the exchange handles the requests; their latency has not elapsed (virtual time stands still)
+            for _ in 0..4 {
+                tokio::task::yield_now().await;
+            }
+        }
+        // the last request sender goes away: the client is dropped, only the account stream is still listened to
+        let (closed_tx, closed_rx) = mpsc::unbounded_channel();
+        drop(closed_rx);
+        let clock_fn: Clock = client_clock;
+        let gone = <MockExecution<Clock> as ExecutionClient>::new(MockExecutionClientConfig {
+            mocked_exchange: EXCHANGE,
+            clock: clock_fn,
+            request_tx: closed_tx,
+            event_rx: broadcast::channel(1).1,
+        });
+        drop(std::mem::replace(client, gone));
+        *killed = true;
+        tokio::time::sleep(std::time::Duration::from_millis(*lat as u64 + 5)).await;
+        let mut arrived = vec![];
+        while let Some(Some(ev)) = stream.next().now_or_never() {
+            arrived.push(notif_json(&ev));
+        }
+        // the request loop has seen its channel close: it must have ended, and not by a panic
+        if let Some(t) = task.take() {
+            if let Some(Err(e)) = t.now_or_never() {
+                if e.is_panic() {
+                    return Err(GONE.into());
+                }
+            }
+        }
+        Ok(repair(arrived))
+    }
+
     fn is_killed(&self) -> bool {
         matches!(self, Sut::Run { killed: true, .. })
     }
@@ -949,7 +1015,44 @@ impl Segment {
             }
         }
         let post = self.post();
-        out.line(&json!({"a": "burst", "k": reqs.len(), "reqs": items, "post": post.clone()}));
+        out.line(&json!({"a": "burst", "k": reqs.len(), "hang": 0, "reqs": items, "post": post.clone()}));
+        post
+    }
+
+    /// The end of the scenario: `reqs` (open orders nobody waits for), then the last request sender is dropped.
+    async fn hangup(&mut self, out: &mut Out, reqs: &[Value], h: i64) -> Value {
+        if self.direct || self.dead || self.sut.is_killed() || reqs.is_empty() {
+            // no exchange task to hang up on: the requests are ordinary abandoned ones
+            let mut post = self.post();
+            for r in reqs {
+                post = self.step(out, r).await;
+            }
+            return post;
+        }
+        let mut items: Vec<Value> = reqs
+            .iter()
+            .map(|r| {
+                json!({
+                    "a": "open", "t": i(r, "t"), "side": s(r, "side"), "p": i(r, "p"), "q": i(r, "q"),
+                    "instr": s(r, "instr"), "kind": s(r, "kind"), "since": i(r, "since"), "drop": i(r, "drop"),
+                    "out": "lost", "why": "-", "id": -1, "filled": 0, "rt": -1, "echo": 1, "res": empty_res(),
+                })
+            })
+            .collect();
+        let served = self.sut.hangup(reqs, self.n, h).await;
+        self.n += reqs.len() as u64;
+        match served {
+            Ok(notifs) => self.notif.extend(notifs),
+            Err(p) => {
+                self.dead = true;
+                for it in items.iter_mut() {
+                    it["out"] = json!("panic");
+                }
+                self.ledger = json!({"panic": p});
+            }
+        }
+        let post = self.post();
+        out.line(&json!({"a": "burst", "k": reqs.len(), "hang": h, "reqs": items, "post": post.clone()}));
         post
     }
 
@@ -1149,6 +1252,7 @@ async fn main() {
     let mut out = Out::create(args.req("out"));
     let mut segments = 0usize;
     let mut bursts = 0usize;
+    let mut hangups = 0usize;
     match args.cmd.as_str() {
         "run" => {
             // --abandon K (mode run): every K-th open-order request of the scenarios is abandoned
@@ -1193,9 +1297,36 @@ async fn main() {
                     }
                     reqs.push(r);
                 }
-                for group in bursts_of(&reqs, mode == "run") {
+                // the hang-up at the end: the events marked `hg` (a recorded scenario), else - `"hang": h` on the
+                // scenario - the trailing open-order requests (at most three)
+                let h = if mode == "run" { scn.get("hang").and_then(|x| x.as_i64()).unwrap_or(0) } else { 0 };
+                let mut cut = reqs.len();
+                if h > 0 {
+                    let marked = reqs.iter().any(|r| r.get("hg").and_then(|x| x.as_i64()) == Some(1));
+                    while cut > 0
+                        && op_of(&reqs[cut - 1]) == "open"
+                        && reqs[cut - 1].get("drop").and_then(|d| d.as_i64()).unwrap_or(0) != 3
+                        && (if marked { reqs[cut - 1].get("hg").and_then(|x| x.as_i64()) == Some(1) } else { reqs.len() - cut < 3 })
+                    {
+                        cut -= 1;
+                    }
+                    for (pos, r) in reqs[cut..].iter_mut().enumerate() {
+                        if !marked {
+                            r["drop"] = json!(if (h + pos as i64) % 2 == 1 { 1 } else { 2 });
+                        }
+                        r["bq"] = json!(0);
+                    }
+                    if cut < reqs.len() {
+                        reqs[cut]["bq"] = json!(0);
+                    }
+                }
+                for group in bursts_of(&reqs[..cut], mode == "run") {
                     bursts += (group.len() > 1) as usize;
                     seg.burst(&mut out, group).await;
+                }
+                if cut < reqs.len() {
+                    hangups += 1;
+                    seg.hangup(&mut out, &reqs[cut..], h).await;
                 }
                 seg.end();
             }
@@ -1258,11 +1389,35 @@ async fn main() {
                         break;
                     }
                 }
+                // every third exchange that is still running is hung up on: 1-3 open orders nobody waits for,
+                // then the last request sender goes away while they are inside the latency window
+                if mode == "run" && post.get("panic").is_none() && !seg.sut.is_killed() && rng.random_range(0..3) == 0 {
+                    let h = rng.random_range(1..=2);
+                    let mut v = vec![];
+                    for _ in 0..rng.random_range(1..=3) {
+                        let mut r = random_request(&mut rng, &world, &post, t);
+                        for _ in 0..8 {
+                            if op_of(&r) == "open" {
+                                break;
+                            }
+                            r = random_request(&mut rng, &world, &post, t);
+                        }
+                        if op_of(&r) == "open" {
+                            r["drop"] = json!(rng.random_range(1..=2));
+                            v.push(r);
+                        }
+                    }
+                    if !v.is_empty() {
+                        hangups += 1;
+                        done += v.len();
+                        seg.hangup(&mut out, &v, h).await;
+                    }
+                }
                 seg.end();
             }
         }
         c => usage(&format!("unknown command {c}")),
     }
     let n = out.finish();
-    println!("{}", json!({"lines": n, "segments": segments, "bursts": bursts, "mode": mode}));
+    println!("{}", json!({"lines": n, "segments": segments, "bursts": bursts, "hangups": hangups, "mode": mode}));
 }
